@@ -135,6 +135,8 @@ def run_scenario(case: dict, serial: str | None = None) -> dict[str, Any]:
         for _ in range(case["warm"]):
             run.tick()
         reqs = [_resolve(run, pcode, r) for r in reqs]
+        if case.get("fail"):                    # the hardware read of the concurrent tick fails
+            run.uod.hwl._verif_fail_reads = 1
         results: list[str] = []
         raised: list[str] = []
 
@@ -197,8 +199,10 @@ def real_positions(trace: list[tuple[str, str]], n_reqs: int) -> list[str]:
 class Combo:
     """One (program, warm-up, requests): its serial outcomes and everything needed to print a schedule's line."""
 
-    def __init__(self, prog: str, warm: int, reqs: list[str]):
+    def __init__(self, prog: str, warm: int, reqs: list[str], fail: bool = False):
         self.base = {"prog": prog, "warm": warm, "reqs": reqs}
+        if fail:
+            self.base["fail"] = True
         self.arrs = arrangements(len(reqs))
         self.serial = [run_scenario(self.base, serial=a)["obs"] for a in self.arrs]
         ids: list[int] = []
@@ -287,10 +291,10 @@ def run(ctx: Check) -> int:
     def key(c: dict) -> str:
         return json.dumps(c, sort_keys=True)
 
-    def combo_for(prog, warm, reqs) -> Combo:
-        k = json.dumps([prog, warm, reqs])
+    def combo_for(prog, warm, reqs, fail=False) -> Combo:
+        k = json.dumps([prog, warm, reqs, fail])
         if k not in combos:
-            combos[k] = Combo(prog, warm, reqs)
+            combos[k] = Combo(prog, warm, reqs, fail)
         return combos[k]
 
     def add(combo: Combo, choices: str) -> dict:
@@ -305,7 +309,7 @@ def run(ctx: Check) -> int:
     # corpus first
     for c in load_corpus("C40"):
         if "choices" in c:
-            add(combo_for(c["prog"], c["warm"], c["reqs"]), c["choices"])
+            add(combo_for(c["prog"], c["warm"], c["reqs"], bool(c.get("fail"))), c["choices"])
     # (a) every request kind x program x warm-up, the request as a whole at every yield point of the tick
     warms = range(0, 7) if thorough else (5,)
     n_atomic = 0
@@ -409,7 +413,7 @@ def run(ctx: Check) -> int:
 
 def replay(obj) -> int:
     case = obj.get("case", obj)
-    combo = Combo(case["prog"], case["warm"], case["reqs"])
+    combo = Combo(case["prog"], case["warm"], case["reqs"], bool(case.get("fail")))
     rec = combo.execute(case["choices"])
     print("method:", json.dumps(PROGRAMS[case["prog"]]), "warm-up ticks:", case["warm"], "requests:", case["reqs"])
     print("schedule:", rec["made"])
